@@ -98,6 +98,18 @@ TEXTS = {
              "reset-loop defects repaired by fix: commits.",
         design_ref="DESIGN.md 6/C04", note="Trusted: Coq kernel + vm_compute; no axioms; go/ast extractor; Go harness; Arrow transport assumption.",
         technique="Coq proof (order-independent parent-id codec, retry-loop termination) + generated option space + options x histories differential"),
+    "C15": dict(
+        text="Generated fact re-checked on every run: the encoder-side packages contain no call of a pdata mutator (so the input cannot be modified); theorems on a ledger model: exactly one live record leaves "
+             "the retry loop however often records are discarded and rebuilt, and Produce releases every record exactly once when no write fails. Partial: that arrow-go returns memory on Release/Close is the library's "
+             "contract. Tied by measuring, on the real producer with a CheckedAllocator, proto bytes before/after and the allocator balance after Close over histories with schema updates, overflow/reset and encode errors.",
+        design_ref="DESIGN.md 6/C15", note="Trusted: Coq kernel; no axioms; go/packages extractor; Go harness; arrow-go release contract.",
+        technique="generated source fact (typed syntax) + Coq ledger lemmas + allocator-balance and input-bytes measurement"),
+    "C16": dict(
+        text="Theorem: for any number of instances and every interleaving of instance-local steps, each instance's outputs and final state equal those of its solo run; its premise is tied to the code by a generated fact "
+             "re-checked on every run: no store to package-level state outside initialisation in anything reachable from the producer/consumer package (SSA scan). Partial: data-race freedom is a runtime property "
+             "(concurrent-vs-solo runs, and -race in the thorough tier, are evidence).",
+        design_ref="DESIGN.md 6/C16", note="Trusted: Coq kernel; no axioms; go/ssa extractor; Go harness. Race freedom not expressible.",
+        technique="Coq proof (frame / non-interference) + generated source fact (SSA global stores) + concurrent-vs-solo runs"),
 }
 
 NOT_APPLICABLE = []
